@@ -1,6 +1,6 @@
 (* Extract_search.v -- extraction of the C13 search model and its reference matcher (ExtrOcamlBasic only). *)
 From Coq Require Import List NArith ZArith Extraction ExtrOcamlBasic.
-From NV Require Import Bytes UcDefs SearchDefs.
+From NV Require Import Bytes UcDefs SearchDefs Search4Defs.
 Definition all_types : nat * N * Z := (0%nat, 0%N, 0%Z).
 Extraction "search_model.ml" all_types sstate0 search_cmd fm_suffix ref_run ref_spec_run lbuf_search_g occ ref_rfind ref_wfind ref_rcomp ref_find
-  no_word_atoms re_read uc_off uc_chr uc_slen.
+  no_word_atoms re_read uc_off uc_chr uc_slen code_rcomp ex_kwdset_fwd.
